@@ -735,8 +735,8 @@ SIZED_READS = {"read", "read1", "readline", "readlines", "recv", "peek", "readin
 
 def _in_loop(node: ast.AST | None) -> bool:
     while node is not None:
-        if isinstance(node, (ast.For, ast.AsyncFor, ast.While, ast.ListComp, ast.SetComp, ast.DictComp, ast.GeneratorExp)):
-            return True
+        if isinstance(node, (ast.For, ast.AsyncFor, ast.While, ast.ListComp, ast.SetComp, ast.DictComp, ast.GeneratorExp)) and getattr(node, "_inlined_from", None) is None:
+            return True  # (the one-round `while` that stands for an expanded helper with early returns is not a loop)
         if isinstance(node, (ast.FunctionDef, ast.AsyncFunctionDef, ast.Lambda)):
             return False
         node = astq.parent(node)
